@@ -154,8 +154,10 @@ Theorem C19_str_eqb_spec : forall s t, str_eqb s t = true <-> s = t.
 Proof. exact str_eqb_spec. Qed.
 Print Assumptions C19_str_eqb_spec.
 
-(* ---- JSON: reading back what was written is the identity (float-free values) ---- *)
+(* ---- JSON: reading back what was written is the identity ---- *)
 
-Theorem C19_json_de_ser : forall v, de (ser v) = Some v.
+(* floats are opaque number tokens; [wf] = every float token is a non-integer number token
+   (checked on every generated case by the model driver) *)
+Theorem C19_json_de_ser : forall v, wf v = true -> de (ser v) = Some v.
 Proof. exact json_de_ser. Qed.
 Print Assumptions C19_json_de_ser.
